@@ -20,9 +20,25 @@ def split_and(t):
     res=[]
     for o in out: res+=split_and(o)
     return res
+def split_imp(t):
+    # (=> A B): returns (A, B) when t is a top-level implication
+    t=t.strip()
+    if not t.startswith('(=> '): return None
+    body=t[4:-1]; depth=0
+    for i,ch in enumerate(body):
+        if ch=='(': depth+=1
+        if ch==')': depth-=1
+        if ch==' ' and depth==0:
+            return body[:i], body[i+1:]
+    return None
+guard=None
+imp=split_imp(goal)
+if imp and imp[1].strip().startswith('(and '):
+    guard,goal=imp
 cs=split_and(goal)
 pre='\n'.join(lines[:idx])
 for c in cs:
+    if guard: c='(=> '+guard+' '+c+')'
     q=pre+'\n(assert (not '+c+'))\n(check-sat)\n'
     open('/tmp/conj_q.smt2','w').write(q)
     r=subprocess.run(['z3-new','-T:10','smt.mbqi=false','smt.auto_config=false','/tmp/conj_q.smt2'],capture_output=True,text=True).stdout.split('\n')
